@@ -1,4 +1,5 @@
 """C18 - the distribution interface keeps its documented shape and argument contract."""
+import json
 import numpy as np
 import torch
 from hypothesis import strategies as st
@@ -239,9 +240,12 @@ def run_case(case):
             for k in range(1, len(chunks)):
                 if torch.equal(chunks[0], chunks[k]) and float(chunks[0].std() if chunks[0].numel() > 1 else 1.0) > 0 and \
                         bool(torch.isfinite(chunks[0]).all()) and float(chunks[0].abs().max()) < 1e30 and \
-                        (kind != "flow" or (chunks[0].numel() >= 2 and chunks[0].unique().numel() == chunks[0].numel())):
+                        (kind != "flow" or (chunks[0].numel() >= 2 and chunks[0].unique().numel() == chunks[0].numel()
+                                            and not any('"t": "%s"' % t_ in json.dumps(case.get("spec", {})) for t_ in ("compositecdf", "leakyrelu", "logit", "sigmoid")))):
                     # (two draws overflowing to inf are equal; so are two draws a flow's declared clamp maps to the same value -
-                    #  LeakyReLU^-1 stretches by 100, the CompositeCDF logit clamps at -13.8155: for flows a block must hold >= 2 distinct values)
+                    #  LeakyReLU^-1 stretches by 100, the CompositeCDF logit clamps at -13.8155: for flows a block must hold >= 2 distinct values;
+                    #  with a wide conditional base every feature of two draws can saturate, and a later linear layer makes the clamped values
+                    #  pairwise distinct: flows containing a clamping part are not judged by this equality)
                     res.fail("duplicate_draws", site, "sample(%d, batch_size=%d): batch %d is identical to batch 0 (batches are not independent draws)" % (n, bs, k),
                              bs=case["bs"])
                     return res
